@@ -52,6 +52,7 @@ type Script struct {
 	PreserveHost bool   `json:"preserve_host"`
 	Concurrent   bool   `json:"concurrent"` // h2: all requests in flight at once
 	Cases        []Case `json:"cases"`
+	Volume       bool   `json:"volume,omitempty"` // many sequential uploads on the one connection
 }
 
 var col = vstat.New("C08", "c08.passthrough")
@@ -189,6 +190,12 @@ func genCase(t *rapid.T, proto string, i int, thorough bool) Case {
 		}
 		if rapid.IntRange(0, 3).Draw(t, "rtr") == 0 {
 			c.RespTrailers = [][2]string{{"X-Resp-Trailer", shortValue(t, "rtrv")}, {"X-Digest", "sha=xyz"}}
+			switch rapid.IntRange(0, 4).Draw(t, "rtrshape") {
+			case 0: // a trailer section in which every field is empty is a trailer section all the same
+				c.RespTrailers = [][2]string{{"X-Resp-Trailer", ""}}
+			case 1:
+				c.RespTrailers = [][2]string{{"X-Resp-Trailer", ""}, {"X-Digest", ""}}
+			}
 			c.Announce = rapid.Bool().Draw(t, "announce")
 		}
 	}
@@ -198,6 +205,18 @@ func genCase(t *rapid.T, proto string, i int, thorough bool) Case {
 func gen(t *rapid.T) Script {
 	s := Script{Proto: rapid.SampledFrom([]string{"h2", "http/1.1", "h2raw"}).Draw(t, "proto"), PreserveHost: rapid.Bool().Draw(t, "ph")}
 	n := rapid.IntRange(1, 6).Draw(t, "ncases")
+	if rapid.IntRange(0, 11).Draw(t, "volume") == 0 {
+		// a long-lived connection: many modest uploads, one after the other, more in total than any window the
+		// proxy advertises (1 MiB per HTTP/2 connection)
+		n = rapid.IntRange(36, 48).Draw(t, "nvol")
+		size := rapid.SampledFrom([]int{32768, 40000, 65536}).Draw(t, "volsize")
+		for i := 0; i < n; i++ {
+			s.Cases = append(s.Cases, Case{Method: "POST", Path: fmt.Sprintf("/c/%d/vol", i), Authority: "example.com", Headers: [][2]string{{"User-Agent", "verif-client/1.0"}},
+				BodyLen: size, BodySeed: i, Chunked: i%2 == 0, Status: 200, RespBodyLen: 10, RespSeed: i})
+		}
+		s.Volume = true
+		return s
+	}
 	for i := 0; i < n; i++ {
 		s.Cases = append(s.Cases, genCase(t, s.Proto, i, vstat.Tier() == "thorough"))
 	}
@@ -533,7 +552,7 @@ func exec(t *testing.T, s Script) *vstat.Violation {
 			return vstat.Violf(pc+"|response-body-changed", "case %d: backend body %d bytes, client received %d bytes, first difference at %d", i, len(wantRB), len(r.body), firstDiff(wantRB, r.body))
 		}
 		for _, tr := range c.RespTrailers {
-			if r.trailer.Get(tr[0]) != tr[1] {
+			if vals := r.trailer.Values(tr[0]); len(vals) == 0 || vals[0] != tr[1] { // (a field with an empty value is a field: present, once)
 				return vstat.Violf(pc+"|response-trailer-lost", "case %d: backend trailer %s=%q (announced=%v), client saw %q", i, tr[0], tr[1], c.Announce, r.trailer.Values(tr[0]))
 			}
 		}
@@ -548,6 +567,13 @@ func exec(t *testing.T, s Script) *vstat.Violation {
 		}
 		if len(c.RespTrailers) > 0 {
 			classes = append(classes, "response-trailers")
+			allEmpty := true
+			for _, tr := range c.RespTrailers {
+				allEmpty = allEmpty && tr[1] == ""
+			}
+			if allEmpty {
+				classes = append(classes, "response-trailers-all-empty:"+s.Proto)
+			}
 		}
 		if len(c.ConnTokens) > 0 {
 			classes = append(classes, "hop-by-hop")
@@ -565,6 +591,9 @@ func exec(t *testing.T, s Script) *vstat.Violation {
 	classes = append(classes, "proto:"+s.Proto, fmt.Sprintf("preserve-host:%v", s.PreserveHost))
 	if s.Concurrent {
 		classes = append(classes, "concurrent")
+	}
+	if s.Volume {
+		classes = append(classes, "uploads-beyond-1MiB-on-one-connection:"+s.Proto)
 	}
 	nt := false
 	for _, c := range classes {
@@ -657,7 +686,8 @@ func dedup(in []string) []string {
 
 func TestPassThrough(t *testing.T) {
 	rig.Certs()
-	col.Mandatory("proto:h2", "proto:http/1.1", "preserve-host:true", "preserve-host:false", "request-body>64KiB", "response-body>64KiB", "request-trailers", "response-trailers", "hop-by-hop", "concurrent", "chunked-or-unknown-length", "proto:h2raw", "padded-request-data", "unannounced-request-trailers")
+	col.Mandatory("proto:h2", "proto:http/1.1", "preserve-host:true", "preserve-host:false", "request-body>64KiB", "response-body>64KiB", "request-trailers", "response-trailers", "hop-by-hop", "concurrent", "chunked-or-unknown-length", "proto:h2raw", "padded-request-data", "unannounced-request-trailers",
+		"response-trailers-all-empty:h2", "uploads-beyond-1MiB-on-one-connection:h2")
 	vstat.Run(t, vstat.Spec[Script]{Col: col, Quick: 500, Thorough: 8000, Gen: gen, Exec: func(s Script) *vstat.Violation { return exec(t, s) }})
 }
 
